@@ -427,6 +427,15 @@ META = (META[0] + ' LITMASK over _bit/ (no mask or power of two is built by shif
 META = (META[0] + ' SLOTS-D / SLOTS-C / SLOTS-G (shared with C03: the destroyed range is exactly the removed tail; gained slots are constructed).', META[1])
 
 
+META = (META[0] + ' S2 (shared with C09: static_set appends to its storage only behind the !full() test).', META[1])
+
+
+META = (META[0] + ' TERM (shared with C04: every size store of the string is followed by the terminator at that index).', META[1])
+
+
+META = (META[0] + ' SHIFTNEG (a shift by a signed parameter - the int of the <cctype> functions, EOF included - happens only where the parameter is known to be non-negative; controls in fixtures/extra12_pos.hpp).', META[1])
+
+
 def run(chk, tier):
     db = D.load("plain")
     with open(c05.SPEC) as fh:
@@ -518,6 +527,23 @@ def run(chk, tier):
     _SLD.check(chk, D.load("plain"), ["static_vector", "inplace_vector"], lambda r: ("trivial_storage" not in r) or ("non_trivial" in r), only=("D", "C", "G"))
     if chk.rule_instances.get("SLOTS-D", 0) < 2:
         chk.analysis_broken("SLOTS-D: fewer than 2 shrinking size stores found in the vectors (floor 2)")
+    # S2 (shared with C09): the fixed-capacity set appends to its storage only behind the !full() test - an unguarded
+    # push_back writes one element past the inline array
+    from ..rules import sets as _SR2
+    _cdb = D.load("checks")
+    ns2 = 0
+    for _rq, _needs in (("etl::static_set", True),):
+        _fs = [f for f in _cdb.funcs if f.get("record") == _rq]
+        ns2 += _SR2.s2_guarded_insertion(chk, _cdb, _rq, _fs, _needs)
+    if ns2 < 1:
+        chk.analysis_broken("S2: no insertion path of static_set found (floor 1)")
+    # TERM (shared with C04): c_str() / data() promise a null-terminated array; a size store that is not followed by the
+    # terminator lets every C-string reader (strlen, the pointer overloads of find / compare) run past the object
+    from . import c04 as _c04t
+    _c04t.terminator_rule(chk, D.load("checks"))
+    from ..rules import extra12 as _X12s
+    _X12s.shift_negative_area(chk, D.load('checks'), ['_cctype/', '_cwctype/', '_bit/', '_strings/', '_charconv/', '_cstdlib/', '_cstring/'])      # SHIFTNEG (zero expected)
+    _X12s.shift_negative_control(chk, D)
     # ---- PRECALL: valid calls never violate the precondition of a member they call internally
     if c05.precall(chk, D.load("checks")) < 40:
         chk.analysis_broken("PRECALL: fewer than 40 container operations with a contract-table entry found")
